@@ -9,7 +9,10 @@ port <b|n> <min> <max> <step> <integer> <choices> <enabled> <writable> <hasTw> <
 value <known> <jval> <tout>
 seq <known> <repeat jval> <n> (<jval> <tout>){n} <m> (<jval>){m}
 enable | disable | advance <ms>
-redefine <same fields as port>      the port is removed and created again under the same id
+redefine <same fields as port>      the port is removed and created again under the same id; also sent (for a port with
+                                    driver-computed attributes and no sequence installed) when what the driver declares
+                                    comes into force at a polling pass: then only the definition changes
+                                    (Props.C05.declared_attributes_in_force)
 ```
 jval: null b0 b1 i<n/d> f<n/d> xnan xinf xninf s a o        choice: b0 b1 n<n/d>
 tout: - (port has no write transform) | u (unavailable) | e (raises) | v<jval>
